@@ -354,3 +354,49 @@ def r20_3(ctx, repo):
                             U(den) if den is not None else '?'))
     if n < 4:
         ctx.error(rule, 'only %d band functions analysed (floor 4)' % n)
+
+
+def r20_4(ctx, repo):
+    """Figure classes keep no data between calls: outside the constructor a
+    method writes only the figure handles (`_fig`, `_figs`) and the column
+    keys it was given (`_*_key`).  Anything else — in particular a store into
+    a container field — is state that a later call with another dataset
+    reads back (a cache keyed by time or ID is wrong for the next frame)."""
+    rule = 'R20.4'
+    from ..effects import Effects
+    E = Effects(repo)
+    n = 0
+    for cname, c in sorted(repo.classes.items()):
+        if not c.relpath.startswith('chi/plots'):
+            continue
+        for m, fn in sorted(c.methods.items()):
+            if m == '__init__':
+                continue
+            n += 1
+            w, r, fc = E.summary(cname, m)
+            stores = {}
+            for a in ast.walk(fn):
+                if isinstance(a, (ast.Assign, ast.AugAssign)):
+                    tg = a.targets if isinstance(a, ast.Assign) \
+                        else [a.target]
+                    for t in tg:
+                        if isinstance(t, ast.Subscript) and U(
+                                t.value).startswith('self._'):
+                            stores[U(t.value)] = a
+            bad = sorted(f for f in set(w) | set(stores)
+                         if f not in ('self._fig', 'self._figs')
+                         and not f.endswith('_key'))
+            construct = '%s.%s' % (cname, m)
+            where = repo.loc(stores[bad[0]] if bad and bad[0] in stores
+                             else fn, cname, m)
+            if bad:
+                ctx.violation(
+                    rule, where, construct, 'state ' + ','.join(bad),
+                    '%s writes %s, which outlives the call: the next call '
+                    '(another dataset, another prediction) reads values '
+                    'computed for this one' % (construct, ', '.join(bad)))
+            else:
+                ctx.ok(rule, where, construct,
+                       'writes only the figure handle / column keys')
+    if n < 20:
+        ctx.error(rule, 'only %d plot methods analysed (floor 20)' % n)
